@@ -29,6 +29,38 @@ def errOf {α : Type} : Except NErr α → Option NErr
 /-- two deliveries carry the same header (the oracle answers aside) -/
 def SameContent (a b : FHdr) : Prop := a.h = b.h ∧ a.prevHash = b.prevHash ∧ a.rest = b.rest
 
+/-- **The proof-of-work clause for one header** against the store `s`: the edge bits are an allowed
+size, the cycle verifier accepted the proof for this header, the claimed total difficulty exceeds
+the stored parent's by exactly the network difficulty, and the proof's own difficulty
+(`to_difficulty`: a function of the hash of the proof nonces) reaches it. -/
+def PowRule (ct : ChainType) (s : List FHdr) (f : FHdr) : Prop :=
+  (isPrimary ct f.h.edgeBits = true ∨ isSecondary f.h.edgeBits = true) ∧ f.powOk = true ∧
+  ∃ prev next, getHdr s f.prevHash = some prev ∧
+    nextDifficulty ct f.h.height (windowFrom s (DMA_WINDOW + 1) f.prevHash) = some next ∧
+    f.h.totalDiff - prev.h.totalDiff = next.diff ∧
+    next.diff ≤ toDifficulty ct f.h.height f.h.edgeBits f.h.secondaryScaling f.h.hash64
+
+theorem powRule_of_rules {ct : ChainType} {s : List FHdr} {f : FHdr}
+    (h : HeaderRules (ctxFor ct false s f) f.h) : PowRule ct s f := by
+  obtain ⟨_, prev, hp, _, _, _, _, _, _, hd⟩ := h
+  obtain ⟨he, hpow, _, next, hn, hdiff, hle, _⟩ := hd rfl
+  simp only [ctxFor, Option.map_eq_some_iff] at hp
+  obtain ⟨p, hp1, hp2⟩ := hp
+  subst hp2
+  exact ⟨he, hpow, p, next, hp1, hn, hdiff, hle⟩
+
+theorem batchRules_mem {ct : ChainType} {skip : Bool} :
+    ∀ (pre : List FHdr) (s : List FHdr) (f : FHdr) (post : List FHdr),
+      BatchRules ct skip s (pre ++ f :: post) →
+      HeaderRules (ctxFor ct skip (pre.reverse ++ s) f) f.h := by
+  intro pre
+  induction pre with
+  | nil => intro s f post h; exact h.1
+  | cons a t ih =>
+    intro s f post h
+    have := ih (a :: s) f post h.2
+    simpa [List.reverse_cons, List.append_assoc] using this
+
 theorem getHdr_cons_self (f : FHdr) (s : List FHdr) : getHdr (f :: s) f.hash = some f := by
   simp [getHdr, List.find?]
 
